@@ -538,7 +538,9 @@ class Parser:
             if t.text == 'true' or t.text == 'false':
                 self.i += 1
                 return ('bool', t.text == 'true', t.line)
-            if t.text in ('match', 'loop', 'while', 'for', 'break', 'continue', 'move', 'async', 'await', 'dyn', 'impl', 'fn', 'let'):
+            if t.text == 'match':
+                return self.parse_match()
+            if t.text in ('loop', 'while', 'for', 'break', 'continue', 'move', 'async', 'await', 'dyn', 'impl', 'fn', 'let'):
                 self.fail('`%s` expression' % t.text)
             if t.text == 'return':
                 self.fail('`return` in expression position')
@@ -572,6 +574,56 @@ class Parser:
     def _looks_like_struct_lit(self):
         # `Name { ident : ...` or `Name { }`
         return (self.peek(1).kind == 'id' and self.at(':', 2)) or self.at('}', 1)
+
+    def parse_match(self):
+        """match <scrutinee> { <pat> [if <guard>] => <expr> , ... }  with <pat> one of: integer literal (optionally negative),
+        path (constant / enum variant), `_`, a plain identifier (binding). Translated as a chain of ifs."""
+        t = self.expect('match')
+        scrut = self.parse_expr(nostruct=True)
+        self.expect('{')
+        arms = []
+        while not self.at('}'):
+            pt = self.peek()
+            if pt.kind == 'int' or (self.at('-') and self.peek(1).kind == 'int'):
+                neg = False
+                if self.at('-'):
+                    self.i += 1
+                    neg = True
+                lt = self.peek()
+                self.i += 1
+                lit = ('lit', lt.value, lt.suffix, lt.line, lt.text)
+                pat = ('plit', ('un', '-', lit, lt.line) if neg else lit)
+            elif pt.kind == 'id':
+                segs = [self.ident().text]
+                while self.at('::'):
+                    self.i += 1
+                    segs.append(self.ident().text)
+                if self.at('(') or self.at('{'):
+                    self.fail('match pattern with sub-patterns')
+                if segs == ['_']:
+                    pat = ('pwild',)
+                elif len(segs) == 1:
+                    pat = ('pname', segs[0], pt.line)      # constant or binding: decided by name resolution
+                else:
+                    pat = ('ppath', segs, pt.line)
+            else:
+                self.fail('match pattern outside the subset (literal, path, `_` or identifier expected)')
+            if self.at('|') or self.at('..') or self.at('..=') or self.at('@'):
+                self.fail('or-/range-/@-pattern in match')
+            guard = None
+            if self.at('if'):
+                self.i += 1
+                guard = self.parse_expr(nostruct=True)
+            self.expect('=>')
+            body = self.parse_expr()
+            arms.append((pat, guard, body, pt.line))
+            if self.at(','):
+                self.i += 1
+            elif not self.at('}'):
+                if body[0] not in ('block', 'if'):
+                    self.fail('expected , or } after match arm')
+        self.expect('}')
+        return ('match', scrut, arms, t.line)
 
     def parse_if(self):
         t = self.expect('if')
@@ -696,7 +748,7 @@ class Parser:
         self.fail('expected ; or } after expression')
 
     # -- items
-    def parse_fn(self):
+    def parse_fn(self, sig_only=False):
         t = self.expect('fn')
         name = self.ident().text
         if self.at('<'):
@@ -724,6 +776,8 @@ class Parser:
             ret = self.parse_type()
         if self.at('where'):
             self.fail('where clause')
+        if sig_only:
+            return ('fn', name, params, ret, None, t.line)
         body = self.parse_block()
         return ('fn', name, params, ret, body, t.line)
 
